@@ -687,15 +687,26 @@ class UpdGen:
 GARBAGE = ["", " ", "{", "}", "SELECT", "SELECT WHERE", "INSERT DATA {", "DELETE WHERE", "é", "SELECT é", "SELECT ?s WHERE { ?s é ?o }",
            "SELECT ?s WHERE { ?s ?p ?o } é", " ", "INSERT DATA { <a> <b> \"é }", "SELECT * WHERE { ?s ?p ?o ", "😀😀😀",
            "PREFIX : <http://e/> SELECT", "SELECT ?s WHERE { GRAPH { ?s ?p ?o } }", "DROP ALL", "ASK { ?s ?p ?o }", "﻿SELECT * WHERE { }",
-           "SELECT ?s WHERE { ?s <http://e/p1> \"é", "INSERT DATA { <http://e/i1> <http://e/p1> 'é' . } é", "LOAD <x>", "select ☃ where {}"]
+           "SELECT ?s WHERE { ?s <http://e/p1> \"é", "SELECT ?s WHERE { ?s <http://e/\\u00eé> ?o }", "SELECT ?s WHERE { ?s <http://e/\\U000000e€> ?o }",
+           "INSERT DATA { <http://e/i1> <http://e/\\u00é> <http://e/i2> . }", "SELECT ?s FROM <http://e/\\u0é> WHERE { ?s ?p ?o }", "INSERT DATA { <http://e/i1> <http://e/p1> 'é' . } é", "LOAD <x>", "select ☃ where {}"]
 MULTIBYTE = ["é", "✓", "😀", " ", "﻿", "ß"]
 
 
 def fuzz(rng, text):
     """Structured faults on a valid request: returns (mutated text, fault description)."""
     toks = text.split(" ")
-    k = rng.randint(0, 7)
+    k = rng.randint(0, 9)
     i = rng.randrange(len(toks))
+    if k >= 8:
+        # a \u / \U escape whose digit window is cut short by a multi-byte character, a non-hex letter or the end of the
+        # token, inside an IRI or a literal (or, failing that, any token)
+        cand = [j for j, t in enumerate(toks) if (t.startswith("<") and t.endswith(">") and len(t) > 2) or (t.startswith('"') and len(t) > 2)] or [i]
+        j = rng.choice(cand)
+        t = toks[j]
+        u, n = rng.choice([("\\u", 4), ("\\U", 8)])
+        esc = u + "".join(rng.choice("0e9aF") for _ in range(rng.randint(0, n - 1))) + rng.choice(MULTIBYTE + ["g", "", "é"])
+        at = rng.randint(1, max(1, len(t) - 1))
+        return " ".join(toks[:j] + [t[:at] + esc + t[at:]] + toks[j + 1:]), f"broken unicode escape inside token {j}"
     if k == 0:
         return " ".join(toks[:i]), f"truncate after token {i}"
     if k == 1:
